@@ -167,15 +167,15 @@ func (c *Check) Finish(tier string, seed int64, evidencePath string, ff *Finding
 			if f, ok := known[o.Key]; ok {
 				o.Known = true
 				res.Known++
-				lines = append(lines, fmt.Sprintf("KNOWN-FINDING: property=%s %s [%s at %s]", c.Property, f.What, o.Key, o.Pos))
+				lines = append(lines, fmt.Sprintf("KNOWN-FINDING: property=%s %s [%s at %s]", c.Property, clip(f.What, 400), o.Key, o.Pos))
 				nontrivial[o.Key] = true
 			} else {
 				res.Violations++
-				lines = append(lines, fmt.Sprintf("  violated %s at %s: %s", o.Key, o.Pos, o.Witness))
+				lines = append(lines, fmt.Sprintf("  violated %s at %s: %s", o.Key, o.Pos, clip(o.Witness, 400)))
 			}
 		case Undecided:
 			res.Undecided++
-			lines = append(lines, fmt.Sprintf("  undecided %s at %s: %s", o.Key, o.Pos, o.Witness))
+			lines = append(lines, fmt.Sprintf("  undecided %s at %s: %s", o.Key, o.Pos, clip(o.Witness, 400)))
 		}
 	}
 	sort.Strings(lines)
@@ -261,4 +261,12 @@ func FailIncomplete(prop, tier string, seed int64, evidencePath string, err erro
 	fmt.Printf("analysis-incomplete for %s: %v\n", prop, err)
 	fmt.Printf("VIOLATION property=%s replay=%s\n", prop, evidencePath)
 	return 1
+}
+
+func clip(s string, n int) string {
+	s = strings.ReplaceAll(s, "\n", " ")
+	if len(s) > n {
+		return s[:n] + "… (full text in the evidence file)"
+	}
+	return s
 }
